@@ -1,6 +1,7 @@
 package main
 
 import (
+	"go/constant"
 	"fmt"
 	"go/ast"
 	"go/token"
@@ -189,6 +190,7 @@ func effectsPass(w *World, id string) []*OwnOb {
 		out = append(out, checkPackageVars(w)...)
 	case "C05":
 		out = append(out, checkFormatTable(w)...)
+		out = append(out, checkOutputFileOpen(w, lib)...)
 	case "C20":
 		out = append(out, checkWrapper(w)...)
 	case "C08":
@@ -719,6 +721,95 @@ func checkFormatTable(w *World) []*OwnOb {
 		ob("every format encodes and decodes", complete && len(table) > 0, "every registered format needs both MarshalStream and UnmarshalStream"),
 		ob("codecs match their names", strings.HasPrefix(table["toml"].m, "toml") && strings.HasPrefix(table["toml"].u, "toml") && strings.HasPrefix(table["yaml"].m, "yaml") && strings.HasPrefix(table["yaml"].u, "yaml") && strings.HasPrefix(table["json"].m, "json") && strings.HasPrefix(table["json"].u, "json"), "each format must be registered with the codec functions of its own name"),
 	}
+}
+
+// checkOutputFileOpen: C05 — a file that bkl writes is replaced, never patched: every os.OpenFile in the library that
+// can write passes constant flags containing O_TRUNC and O_CREATE (os.Create is the same thing), and OutputToFile has
+// such a site and hands that handle, and nothing else, the encoded stream (one OutputToWriter call on it, no other write).
+func checkOutputFileOpen(w *World, lib []*FuncInfo) []*OwnOb {
+	var out []*OwnOb
+	constInt := func(info *types.Info, x ast.Expr) (int64, bool) {
+		tv, ok := info.Types[x]
+		if !ok || tv.Value == nil {
+			return 0, false
+		}
+		v, exact := constant.Int64Val(constant.ToInt(tv.Value))
+		return v, exact
+	}
+	osConst := func(fi *FuncInfo, name string) (int64, bool) {
+		for _, imp := range fi.Pkg.Types.Imports() {
+			if imp.Path() == "os" {
+				if c, ok := imp.Scope().Lookup(name).(*types.Const); ok {
+					v, exact := constant.Int64Val(constant.ToInt(c.Val()))
+					return v, exact
+				}
+			}
+		}
+		return 0, false
+	}
+	sites := 0
+	for _, fi := range lib {
+		if fi.PkgDir != "." {
+			continue
+		}
+		info := fi.Pkg.TypesInfo
+		ord := 0
+		ast.Inspect(fi.Decl.Body, func(n ast.Node) bool {
+			c, ok := n.(*ast.CallExpr)
+			if !ok {
+				return true
+			}
+			switch extFuncName(c, info) {
+			case "os.OpenFile":
+				ord++
+				good := false
+				why := "flags are not a constant"
+				if len(c.Args) == 3 {
+					if fl, ok := constInt(info, c.Args[1]); ok {
+						tr, ok1 := osConst(fi, "O_TRUNC")
+						cr, ok2 := osConst(fi, "O_CREATE")
+						wr, ok3 := osConst(fi, "O_WRONLY")
+						rw, ok4 := osConst(fi, "O_RDWR")
+						ap, ok5 := osConst(fi, "O_APPEND")
+						if ok1 && ok2 && ok3 && ok4 && ok5 {
+							writes := fl&wr != 0 || fl&rw != 0
+							good = !writes || (fl&tr != 0 && fl&cr != 0 && fl&ap == 0)
+							why = fmt.Sprintf("flags %#x open for writing without O_TRUNC|O_CREATE (or with O_APPEND): older content of the file would survive next to the new stream", fl)
+							if fi.Name == "Parser.OutputToFile" && writes {
+								sites++
+							}
+						}
+					}
+				}
+				out = append(out, &OwnOb{Key: fmt.Sprintf("%s.effects[written files are replaced #%d]", fi.Key, ord), Kind: "effects", OK: good, Pos: posStr(w, c.Pos()),
+					Why: fi.Name + ": os.OpenFile " + why})
+			case "os.Create", "os.WriteFile":
+				if fi.Name == "Parser.OutputToFile" {
+					sites++
+				}
+			}
+			return true
+		})
+	}
+	fi := findFunc(w, ".:Parser.OutputToFile")
+	pos := ""
+	if fi != nil {
+		pos = posStr(w, fi.Decl.Pos())
+	}
+	out = append(out, &OwnOb{Key: ".:Parser.OutputToFile.effects[opens the output file for replacement]", Kind: "effects", OK: sites == 1, Pos: pos,
+		Why: fmt.Sprintf("OutputToFile must open its target exactly once, truncating (found %d such sites)", sites)})
+	// the handle receives the stream through OutputToWriter and nothing else writes to it in this function
+	if fi != nil {
+		other := 0
+		for _, s := range directEffects(w, fi) {
+			if s.class == "write-handle" {
+				other++
+			}
+		}
+		out = append(out, &OwnOb{Key: ".:Parser.OutputToFile.effects[only OutputToWriter writes to the file]", Kind: "effects", OK: other == 0, Pos: pos,
+			Why: fmt.Sprintf("OutputToFile writes to a handle directly (%d sites): the file content is no longer exactly what OutputToWriter produces", other)})
+	}
+	return out
 }
 
 // checkPackageVars: C09 — the set of package-level variables is the allow-listed, read-only one. A new package-level
